@@ -7,5 +7,5 @@ NAME=$1; PID=$2; shift 2
 WT=$(mktemp -d /tmp/seedrun_XXXXXX)
 git -C /repo worktree add -q --detach "$WT" HEAD || exit 2
 trap 'git -C /repo worktree remove --force "$WT" >/dev/null 2>&1; rm -rf "$WT"' EXIT
-git -C "$WT" apply /verif/seeded/$NAME/patch.diff || { echo "patch failed"; exit 2; }
+git -C "$WT" apply /verif/seeded/$NAME/patch.diff 2>/dev/null || git -C "$WT" apply --3way /verif/seeded/$NAME/patch.diff || { echo "patch failed"; exit 2; }
 cd /verif && VF_REPO="$WT" ./check "$PID" --no-evidence "$@" 2>&1 | grep -v "^ --" | grep -E "VIOLATION|UNDECIDED|KNOWN|^property|^  [a-z0-9_]+ " | sed "s/^/[$NAME] /"
